@@ -241,6 +241,10 @@ func (r *run) teardown() {
 			w.br.deliver(d, true)
 			progressed = true
 		}
+		for _, h := range w.br.heldList() {
+			w.br.releasePub(h)
+			progressed = true
+		}
 		if !progressed {
 			busy := len(w.tr.byState("running")) > 0
 			for _, a := range w.actors {
@@ -297,6 +301,7 @@ type item struct {
 	c    *call
 	p    *simmongo.Pending
 	d    *mqttDelivery
+	h    *heldPub
 }
 
 func callOwner(c *call) string { return fmt.Sprintf("rpc%04d", c.id) }
@@ -334,6 +339,11 @@ func (r *run) items(f *focus) []item {
 		}
 		if f.all || f.calls[c] {
 			out = append(out, item{kind: "resp", key: fmt.Sprintf("%04d", c.id), c: c})
+		}
+	}
+	for _, h := range w.br.heldList() {
+		if f.all || f.mqtt || f.owners[h.owner] {
+			out = append(out, item{kind: "pub", key: h.key(), h: h})
 		}
 	}
 	if f.all || f.mqtt {
@@ -478,6 +488,11 @@ func (r *run) crashServer() {
 	w.br.deadPub[old.mq.name] = true
 	w.br.mu.Unlock()
 	w.mongo.KillInstance(old.id)
+	for _, h := range w.br.heldList() {
+		if h.from == old.mq.name {
+			w.br.releasePub(h)
+		}
+	}
 	// in-flight handler goroutines run into connection errors and end; give them simulated time
 	for i := 0; i < 40; i++ {
 		synctest.Wait()
@@ -502,8 +517,23 @@ func (r *run) crashServer() {
 
 type harnessError struct{ msg string }
 
+func (h harnessError) Error() string { return h.msg }
+
 func (r *run) harness(format string, a ...interface{}) {
-	panic(harnessError{fmt.Sprintf(format, a...)})
+	msg := fmt.Sprintf(format, a...)
+	if r.w != nil {
+		msg = fmt.Sprintf("%s (plan seed %d, step %d)", msg, r.w.seed, r.step)
+	}
+	if r.verbose {
+		tail := 60
+		if noClip {
+			tail = len(r.res.Log)
+		}
+		for _, l := range r.res.Log[max(0, len(r.res.Log)-tail):] {
+			fmt.Fprintln(os.Stderr, "   ", l)
+		}
+	}
+	panic(harnessError{msg})
 }
 
 // deliverResp hands the server's answer (or a transport error) back to the waiting client.
@@ -673,6 +703,11 @@ func (r *run) pump(f *focus, g *kernel.Rng, faults []MongoFault, stopAnswered bo
 			r.logf("  deliver response of %s to %s", callOwner(it.c), it.c.client)
 			r.trace.Str("resp")
 			r.deliverResp(it.c, false)
+		case "pub":
+			r.logf("  publish of %s goes out: %s %s", it.h.owner, it.h.topic, string(it.h.payload))
+			r.trace.Str("pub")
+			r.probe("publish-held-then-released")
+			w.br.releasePub(it.h)
 		case "mqtt":
 			r.logf("  deliver notification %s to %s", string(it.d.payload), it.d.to.name)
 			r.trace.Str("mqtt")
@@ -687,6 +722,11 @@ func (r *run) pump(f *focus, g *kernel.Rng, faults []MongoFault, stopAnswered bo
 func (r *run) hasPending(owner string) bool {
 	for _, p := range r.w.mongo.PendingList() {
 		if p.Owner == owner {
+			return true
+		}
+	}
+	for _, h := range r.w.br.heldList() {
+		if h.owner == owner {
 			return true
 		}
 	}
@@ -785,26 +825,19 @@ func (r *run) deliverNotification(d *mqttDelivery) {
 	if a != nil && json.Unmarshal(d.payload, &n) == nil && n.CUID == a.cuid {
 		own = true
 	}
-	idle := false
 	before := 0
 	if own {
-		idle = true
-		for _, x := range a.dts {
-			if x.dt.NeedPush() {
-				idle = false
-			}
-		}
+		// Whatever the client is in the middle of (its own push may not even be answered yet): a
+		// notification it caused itself must not make it send anything. Everything is quiescent at this
+		// point, so a request that appears right after the delivery is caused by the delivery.
 		for _, c := range w.tr.calls {
 			if c.client == a.name {
 				before++
-				if c.state != "finished" {
-					idle = false
-				}
 			}
 		}
 	}
 	w.br.deliver(d, false)
-	if own && idle {
+	if own {
 		synctest.Wait()
 		after := 0
 		for _, c := range w.tr.calls {
@@ -814,7 +847,7 @@ func (r *run) deliverNotification(d *mqttDelivery) {
 		}
 		r.probe("own-notification-delivered")
 		if after != before {
-			r.fail("notify", "C18.own-notification-ignored", "caused-a-request", "%s received the notification %s caused by its own push and, with nothing to push, sent a request to the server", a.name, string(d.payload))
+			r.fail("notify", "C18.own-notification-ignored", "caused-a-request", "%s received the notification %s caused by its own push and reacted by sending a request to the server", a.name, string(d.payload))
 		}
 	}
 }
